@@ -394,4 +394,36 @@ func init() {
 			return jobs
 		},
 	})
+	register(&PropSpec{
+		ID: "C06", Level: "fault_enumeration",
+		Rule:        "child A runs a generated single-client history (30..70 ops; sets, deletes, incr, forced / non-forced flush, hint dumps, clean restarts; tiny data-file and hint-split limits so that rotation, the asynchronous post-rotation flush, hint dumps ahead of the flush, tree dumps and removals of old tree dumps all happen) with a file-system hook that copies the bucket directory before and after every hooked mutation (data write(2), tmp create, rename of hint/tree files, remove, truncate, small-file rewrite) under one mutex, plus torn variants of every data write (file cut at every 256-byte boundary inside the written range and at 3 unaligned offsets); for every snapshot a fresh process (child B) opens the copy with NewHStore and dumps what it serves; oracle: an independent scanner computes, per key, the newest intact record in the snapshot's data files; B must serve exactly that (value, flags, version; a miss for a tombstone or no record), or refuse to start only when some data file ends in a partial record. Every mutation boundary of each history is visited (exhaustive per history), histories are sampled. distinct = (mutation kind x index-file state x outcome)",
+		Assumptions: []string{"crash model = SIGKILL: completed write(2)/rename/unlink calls survive, nothing is reordered (no power-loss model)", "snapshots are taken while no other hooked mutation is in flight; writes to *.tmp files are not hooked (tmp files are ignored by recovery)", "server-compressed records are expanded with the Go QuickLZ decoder to obtain the durable value"},
+		Plan: func(tier string, seed uint64) []Job {
+			var jobs []Job
+			n, hist, maxs := 14, 1, 200
+			if tier == "thorough" {
+				n, hist, maxs = 42, 8, 400
+			}
+			for i := 0; i < n; i++ {
+				jobs = append(jobs, Job{Variant: "plain", Mode: "db.c06", Timeout: 900, Args: js(map[string]interface{}{"Histories": hist, "MaxSnaps": maxs, "Workers": 2})})
+			}
+			return jobs
+		},
+	})
+	register(&PropSpec{
+		ID: "C07", Level: "fault_enumeration",
+		Rule:        "a generated history (overwrites, deletes, rotations over tiny data files, optionally an earlier GC pass) is flushed, closed and reopened, giving the pre-GC model M0; one GC pass over a range accepted by the store's own range check (1..4 small files; destination an earlier file, the first file of the range rewritten in place, or a fresh file; merge on/off) runs with the snapshot handler copying the bucket directory before and after every hooked mutation (each relocated-record write(2), truncate, removal of sources and hint files, hint tmp create/rename, nextgc.txt, collision file) and after every relocated record (gc.append.done hook), plus torn variants of the relocated-record writes; for every snapshot a fresh process must serve exactly M0 (value, flags, version of live keys; a miss for deleted keys) or refuse to start only when a data file ends in a partial record. Every mutation boundary of each pass is visited; passes are sampled. distinct = (mutation kind x index state x outcome) and pass shapes",
+		Assumptions: []string{"crash model = SIGKILL (prefix of completed syscalls)", "no client writes during the pass (that is C05)", "record size at most half the data-file limit"},
+		Plan: func(tier string, seed uint64) []Job {
+			var jobs []Job
+			n, hist, maxs := 14, 2, 120
+			if tier == "thorough" {
+				n, hist, maxs = 42, 14, 300
+			}
+			for i := 0; i < n; i++ {
+				jobs = append(jobs, Job{Variant: "plain", Mode: "db.c07", Timeout: 900, Args: js(map[string]interface{}{"Histories": hist, "MaxSnaps": maxs, "Workers": 2})})
+			}
+			return jobs
+		},
+	})
 }
